@@ -18,13 +18,15 @@ PLAN = {
                 gen_q=("barrier,continue,rerun,backoff,storm", 60), gen_t=("barrier,continue,stop,rerun,backoff,storm", 1000)),
     "C09": dict(mc_q=[("seq", 3, 1, 2, True), ("gated", 3, 2, 2, True), ("gatedcancel", 2, 2, 1, True), ("conc", 2, 2, 2, False)],
                 mc_t=[("seq", 4, 1, 2, True), ("gated", 4, 3, 1, True), ("gated", 3, 2, 2, True), ("gatedcancel", 3, 2, 2, True), ("conc", 3, 2, 2, False)],
-                gen_q=("stop,cancel,bigstop,onestop", 80), gen_t=("stop,cancel,bigstop,onestop", 2000)),
+                gen_q=("stop,cancel,bigstop,onestop,stoprace,deadlinewait", 80), gen_t=("stop,cancel,bigstop,onestop,stoprace,deadlinewait", 2000)),
     "C11": dict(mc_q=[("gatedcancel", 2, 2, 2, True), ("wait", 2, 2, 2, True), ("cancel", 2, 2, 1, False)],
                 mc_t=[("gatedcancel", 3, 2, 2, True), ("wait", 3, 2, 2, True), ("cancel", 3, 2, 2, False)],
-                gen_q=("cancel", 150), gen_t=("cancel", 4000)),
+                gen_q=("cancel,waitcancel", 120), gen_t=("cancel,waitcancel", 3000)),
     # batch parts of engine-family properties
     "C02": dict(mc_q=[("seq", 2, 1, 3, True), ("gated", 2, 2, 2, True)], mc_t=[("seq", 3, 1, 4, True), ("gated", 3, 2, 3, True)],
                 gen_q=("continue,stop,storm,waves,rebudget", 60), gen_t=("continue,stop,storm,waves,rebudget", 1500)),
+    "C03": dict(mc_q=[("empty", 0, 2, 1, True)], mc_t=[("empty", 0, 2, 1, True), ("seq", 2, 1, 1, True)],
+                gen_q=("empty,single", 60), gen_t=("empty,single,continue", 600)),
     "C04": dict(mc_q=[("seq", 2, 1, 1, True)], mc_t=[("seq", 3, 1, 2, True), ("gated", 2, 2, 1, True)],
                 gen_q=("continue", 40), gen_t=("continue,stop", 800)),
     "C17": dict(mc_q=[("eres", 2, 2, 2, True), ("gatedcancel", 2, 2, 1, True)], mc_t=[("eres", 3, 2, 2, True), ("seq", 3, 1, 2, True), ("gatedcancel", 3, 2, 2, True)],
@@ -35,7 +37,7 @@ PLAN = {
 
 
 # clauses whose antecedent assumes that unobservable internal steps settled within the harness's pause
-TIMING_CLAUSES = {"strictGated"}
+TIMING_CLAUSES = {"strictGated", "noRetryAfterCancelledWait"}
 
 
 def mc_cfg(fam, items, c, n, export):
@@ -77,7 +79,8 @@ def collect(pid, tier, seed, d, binp):
     hist = os.path.join(d, "batch_hist.ndjson")
     cap = 2500 if tier == "quick" else 10000
     crash = run_harness(binp, ["batch", "--scn", scnp, "--out", hist, "--seed", str(seed), "--count", str(count), "--modes", modes,
-                               "-x", "maxscn=%d,bigcount=%d" % (cap, 6 if tier == "quick" else 40)], tolerate_crash=True)
+                               "-x", "maxscn=%d,bigcount=%d%s" % (cap, 6 if tier == "quick" else 40, ",only=continue" if pid == "C07" else "")],
+                        tolerate_crash=True)
     if crash:
         # keep only complete lines of what was recorded before the crash
         with open(hist) as f:
